@@ -107,3 +107,14 @@ def unwrap_primal(t):
 
 def tuple_items(t):
     return list(t[1]) if is_t(t, "tuple") else None
+
+
+class Arms(dict):
+    """arm-class -> returned term, filled from the return arms of a method.  Two arms of one class that return DIFFERENT terms (a refinement inside the
+    class, e.g. `val.item() if hasattr(val, 'item') else val`) do not silently overwrite each other: the entry becomes a ('conflict', ...) term, which equals
+    no expected term."""
+
+    def __setitem__(self, k, v):
+        if k in self and isinstance(self[k], tuple) and isinstance(v, tuple) and self[k] != v:
+            v = ("conflict", self[k], v)
+        super().__setitem__(k, v)
